@@ -123,11 +123,11 @@ def run_both(ops, timeout=3600):
 def hx(s):
     if isinstance(s, str):
         s = s.encode("utf-8", "surrogateescape")
-    return s.hex()
+    return s.hex() or "-"
 
 
 def unhx(h):
-    return bytes.fromhex(h)
+    return b"" if h == "-" else bytes.fromhex(h)
 
 
 def parse_kv(line):
